@@ -31,7 +31,8 @@ RULE = ('E1 (exhaustive, both tiers): simple_cycles on every digraph with <= 4 l
         'finish(circular=True); a custom part re-runs batches in child processes with PYTHONHASHSEED 0..3 and compares. '
         'Oracle: own lazy evaluator + own cycle enumeration on the static reference graph -> per cell MUST_CIRC '
         '(exactly ERR_CIRCULAR on an active cycle, an error downstream of one), MUST_VALUE (all reachable cycles harmless: '
-        'exactly the lazy value), EITHER (error, or exactly the lazy value). Non-trivial = the static graph has a cycle of '
+        'exactly the lazy value), EITHER (error, or exactly the lazy value), or nothing (behind an error-absorbing function '
+        'applied to an EITHER cell, behind an active cycle whose own cells absorb errors). Non-trivial = the static graph has a cycle of '
         'length >= 2 and a cell outside every cycle, and the workbook has a MUST_CIRC cell and a MUST_VALUE cell that is '
         'downstream of a guarded edge; distinct by (cells, names). For cycle cases: the graph has a cycle of length >= 2.')
 ASSUMPTIONS = ['a reference is "guarded" when it sits in a value branch of IF/IFS/IFERROR/IFNA; "selected" is decided by my own '
@@ -39,8 +40,12 @@ ASSUMPTIONS = ['a reference is "guarded" when it sits in a value branch of IF/IF
                'which error value a dependent of a circular cell shows is not asserted (any error value is accepted)',
                'cycles with both selected and unselected guarded edges (and everything downstream of them or of an active '
                'cycle that lazy evaluation does not reach) are EITHER: an error, or exactly the lazy value',
-               'hash seeds are sampled (0..3), orders are sampled (2-3 insertion orders + file order)']
-WATCHDOG_S = 240
+               'an active cycle one of whose cells absorbs errors or has another error operand (IFERROR(x,..) on the cycle) is '
+               'asserted only on the cycle itself (finding F-C10-2), nothing is asserted behind it',
+               'hash seeds are sampled (0..3), orders are sampled (2-3 insertion orders + file order)',
+               'a watchdog trip (30 s per workbook / block of 1024 graphs) is recorded as inconclusive, not as non-termination']
+WATCHDOG_S = 600   # a 'hs' case runs four child interpreters one after the other
+SHRINK = False  # cases come from st.randoms(): Hypothesis' shrinker gains little on them; the runner keeps the smallest failing case per signature
 FLOORS = {
     'cell:circ': ('count', {'quick': 300, 'thorough': 5000}),
     'cell:err': ('count', {'quick': 100, 'thorough': 2000}),
@@ -51,7 +56,7 @@ FLOORS = {
     'path:dict': ('count', {'quick': 100, 'thorough': 2000}),
     'edge:name': ('count', {'quick': 20, 'thorough': 400}),
     'edge:range': ('count', {'quick': 50, 'thorough': 1000}),
-    'hashseeds:4': ('count', {'quick': 2, 'thorough': 16}),
+    'hashseeds:4': ('count', {'quick': 1, 'thorough': 8}),
 }
 
 _cycle_mod = importlib.import_module(sut.formulas.__name__ + '.excel.cycle')  # observe_at: formulas.excel.cycle.simple_cycles
@@ -479,7 +484,7 @@ def check_hs(case):
     results = {}
     labels = ['hashseeds:%d' % len(seeds)]
     for hs in seeds:
-        res, why = run_child(cases, hs, WATCHDOG_S / (len(seeds) + 1.0))
+        res, why = run_child(cases, hs, (WATCHDOG_S - 40.0) / len(seeds))
         if res is None:
             return R(labels=['inconclusive:child-%s' % why])
         results[hs] = res
@@ -514,7 +519,7 @@ def run_hashseed(arg, tier, seed, stats, known):
     """custom part: batch `arg` of generated workbooks / graphs under 4 hash seeds."""
     mod = sys.modules[__name__]
     rnd = random.Random(seed * 100003 + arg * 7 + (0 if tier == 'quick' else 1))
-    nwb, ng = (10, 20) if tier == 'quick' else (40, 60)
+    nwb, ng = (8, 16) if tier == 'quick' else (30, 40)
     cases = []
     for _ in range(nwb):
         c = G.gen_wb(rnd, tier)
@@ -540,14 +545,16 @@ def run_hashseed(arg, tier, seed, stats, known):
 # ==========================================================================
 def check_case(case):
     k = case['k']
-    if k == 'cycblock':
-        return check_cycblock(case)
-    if k == 'cyc':
-        return check_cyc(case)
-    if k == 'wb':
-        return check_wb(case)
     if k == 'hs':
-        return check_hs(case)
+        return check_hs(case)  # under the module's long WATCHDOG_S (four child interpreters)
+    # everything else gets the framework's normal 30 s watchdog (a trip is inconclusive, not a violation)
+    with _runner.alarm(_runner.WATCHDOG_S):
+        if k == 'cycblock':
+            return check_cycblock(case)
+        if k == 'cyc':
+            return check_cyc(case)
+        if k == 'wb':
+            return check_wb(case)
     raise ValueError(k)
 
 
@@ -607,7 +614,7 @@ def parts(tier, seed):
     return [
         ('enum', 'digraphs<=4', _blocks(), 2, True),
         ('enum', 'fixed-workbooks', _fixed_wbs(), 1, False),
-        ('hyp', 'graphs', 3000 if q else 50000),
-        ('hyp', 'workbooks', 1200 if q else 24000),
-        ('custom', 'hashseeds', 'run_hashseed', list(range(8 if q else 32))),
+        ('hyp', 'graphs', 2400 if q else 40000),
+        ('hyp', 'workbooks', 960 if q else 16000),
+        ('custom', 'hashseeds', 'run_hashseed', list(range(8 if q else 24))),
     ]
